@@ -6,6 +6,9 @@
 //	F  Stringf: format + arguments, fmt.Sprintf evaluated here and shipped
 //	J  JSON / IndentedJSON / PureJSON / SecureJSON / ASCIIJSON / JSONP: encoding/json evaluated here
 //	   and shipped; body, status, content type, and whether the body decodes to the same value
+//	R  render HISTORIES: 2..6 requests on one router, one render call each (Stringf fast and slow path,
+//	   String, HTML, Data, the JSON helpers), some served to a ResponseWriter whose k-th Write fails;
+//	   per request: error reported or status, content type, body
 //	H  header setters: a script of Header / AppendHeader / Vary / Link / Redirect / Location /
 //	   ContentType / Download / MethodNotAllowed / SetCookie / Data / DataFromReader calls; after each call the
 //	   values of the header it touched
@@ -30,6 +33,7 @@ type caseT struct {
 	F *fmtCase `json:",omitempty"`
 	J *jsnCase `json:",omitempty"`
 	H *hdrCase `json:",omitempty"`
+	R *renCase `json:",omitempty"`
 }
 
 var rt = router.MustNew()
@@ -65,6 +69,8 @@ func emit(id string, k caseT, st *hx.Stats) string {
 		return emitJsn(id, k.J, st)
 	case k.H != nil:
 		return emitHdr(id, k.H, st)
+	case k.R != nil:
+		return emitRen(id, k.R, st)
 	}
 	panic("empty case")
 }
@@ -82,15 +88,17 @@ func main() {
 		}
 		for i := 0; i < a.N; i++ {
 			var k caseT
-			switch x := r.Intn(20); {
+			switch x := r.Intn(24); {
 			case x < 9:
 				k.N = genNeg(r)
 			case x < 13:
 				k.F = genFmt(r)
 			case x < 17:
 				k.J = genJsn(r)
-			default:
+			case x < 20:
 				k.H = genHdr(r)
+			default:
+				k.R = genRen(r)
 			}
 			fmt.Fprintln(w, emit(fmt.Sprintf("c19-%d-%d", a.Seed, i), k, st))
 		}
